@@ -249,7 +249,7 @@ impl Property for C02 {
     }
     fn cases(&self, tier: Tier) -> u64 {
         match tier {
-            Tier::Quick => 4_000,
+            Tier::Quick => 2_500,
             Tier::Thorough => 60_000,
         }
     }
